@@ -51,7 +51,7 @@ impl CaseOut {
     }
     pub fn violate<S: Into<String>>(&mut self, sig: S, detail: Value) {
         let sig = sig.into();
-        if self.violations.len() < 8 && !self.violations.iter().any(|v| v.sig == sig) {
+        if self.violations.len() < 32 && !self.violations.iter().any(|v| v.sig == sig) {
             self.violations.push(Violation { sig, detail });
         }
     }
